@@ -18,8 +18,9 @@ LINEAR = ("LineString", "MultiLineString")
 def _template(tspec):
     import xarray as xr
 
-    t = np.array(tspec["time"], dtype=float)
-    f = np.array(tspec["freq"], dtype=float)
+    _dt = lambda xs: np.int64 if all(isinstance(x, int) and not isinstance(x, bool) for x in xs) else float
+    t = np.array(tspec["time"], dtype=_dt(tspec["time"]))
+    f = np.array(tspec["freq"], dtype=_dt(tspec["freq"]))
     rng = np.random.default_rng(tspec.get("content_seed", 0))
     if tspec["order"] == "tf":
         dims, shape = ("time", "frequency"), (len(t), len(f))
@@ -285,6 +286,9 @@ def judge(ctx, tspec, gspecs, values, fill, dtype, all_touched_check=True):
 
 
 def _axis(rng, n, kind, start, step):
+    if kind == "integer":      # whole seconds / bin numbers as integers (the template decides the dtype)
+        k = rng.choice([1, 1, 2, 100])
+        return [int(start) + i * k for i in range(n)]
     if kind == "regular":
         return [start + i * step for i in range(n)]
     vals = [start]
@@ -346,8 +350,8 @@ def run(ctx):
         if rng.random() < 0.25:
             nf = nt
         order = rng.choice(["tf", "ft", "tf", "ft", "ctf", "ftc"])
-        t = _axis(rng, nt, rng.choice(["regular", "regular", "irregular"]), rng.choice([0.0, 0.5, 10.0]), rng.choice([1.0, 0.1, 0.01, 256 / 44100]))
-        f = _axis(rng, nf, rng.choice(["regular", "regular", "irregular"]), rng.choice([0.0, 0.0, 1000.0]), rng.choice([125.0, 1000.0, 86.1328125]))
+        t = _axis(rng, nt, rng.choice(["regular", "regular", "irregular", "integer"]), rng.choice([0.0, 0.5, 10.0]), rng.choice([1.0, 0.1, 0.01, 256 / 44100]))
+        f = _axis(rng, nf, rng.choice(["regular", "regular", "irregular", "integer"]), rng.choice([0.0, 0.0, 1000.0]), rng.choice([125.0, 1000.0, 86.1328125]))
         tspec = {"time": t, "freq": f, "order": order, "content_seed": rng.getrandbits(20), "nan_content": rng.random() < 0.1}
         if rng.random() < 0.3:
             tspec["step_attrs"] = rng.choice(["consistent", "stale"])
